@@ -39,7 +39,23 @@ type IOSpec struct {
 	CloseErr bool     `json:"close_err,omitempty"`
 	EOFData  bool     `json:"eof_data,omitempty"` // deliver the final bytes together with io.EOF
 	NilBody  bool     `json:"nil_body,omitempty"`
-	NoBody   bool     `json:"no_body,omitempty"` // http.NoBody: how net/http represents an empty body (Content-Length 0)
+	NoBody   bool     `json:"no_body,omitempty"`  // http.NoBody: how net/http represents an empty body (Content-Length 0)
+	GetBody  string   `json:"get_body,omitempty"` // the request also carries a GetBody function (client-built requests do): same | other | err
+}
+
+// getBodyFunc is what a client-side request carries for redirects: a way to get the body it *meant* to send again.
+// A server-side reader of the request has no business calling it: what arrived is r.Body.
+func getBodyFunc(kind string, full string, fired map[string]int64) func() (io.ReadCloser, error) {
+	return func() (io.ReadCloser, error) {
+		fired["get_body_called"]++
+		switch kind {
+		case "same":
+			return io.NopCloser(strings.NewReader(full)), nil
+		case "other":
+			return io.NopCloser(strings.NewReader(`{"zz_other":[`)), nil
+		}
+		return nil, errIO
+	}
 }
 
 var errIO = errors.New("injected read error")
@@ -215,6 +231,10 @@ func jsonOf(sb *strings.Builder, v Val) {
 	case "i":
 		sb.WriteString(strconv.FormatInt(v.I, 10))
 	case "f":
+		if strings.HasPrefix(v.S, "lit:") {
+			sb.WriteString(v.S[4:]) // the number as the sender wrote it (more digits than a float64 keeps)
+			break
+		}
 		sb.WriteString(strconv.FormatFloat(v.F, 'g', -1, 64))
 	case "b":
 		sb.WriteString(strconv.FormatBool(v.B))
@@ -277,6 +297,9 @@ func scalarString(v Val) string {
 	case "i":
 		return strconv.FormatInt(v.I, 10)
 	case "f":
+		if strings.HasPrefix(v.S, "lit:") {
+			return v.S[4:]
+		}
 		return strconv.FormatFloat(v.F, 'g', -1, 64)
 	case "b":
 		return strconv.FormatBool(v.B)
@@ -411,6 +434,10 @@ func (x *X) buildRequest(op *Op, b *Built) *http.Request {
 	} else if !io.NilBody && io.BodyKind != "none" {
 		body = NewSimReader([]byte(op.IOBody(b, io.BodyKind)), io, x.Faults)
 		req.Body = body
+		if io.GetBody != "" {
+			req.GetBody = getBodyFunc(io.GetBody, op.IOBody(b, io.BodyKind), x.Faults)
+			x.Faults["get_body_offered"]++
+		}
 	}
 	if io.CT != "" {
 		req.Header.Set("Content-Type", io.CT)
